@@ -8,6 +8,13 @@ ROOT = os.path.dirname(os.path.dirname(os.path.abspath(__file__)))
 
 # id -> (category, technique, text, note, design_ref)
 CHECKS = {
+    "C16": (
+        "exploration",
+        "reference-model monitor over generated class hierarchies (real Component subclasses), access-order metamorphic monitor with fresh class objects per order, pair-rule model, module-based components with real files",
+        "All hierarchies of up to 3 (quick) / 4 (thorough) classes over bases x Media form x extend, plus seeded hierarchies of 4-6 classes with diamonds, are built as real Component subclasses and .media is read in four first-access orders (leaf first, root first, shuffled, through instances): files must equal the reference union per medium, without duplicates, in an order consistent with all declared lists, identically for every order; template/js/css pairs (inline, *_file with real files, None, both) must follow the nearest-definition rule or raise ImproperlyConfigured; components imported from real modules in a temp component dir must give the same resolved paths whatever is read first.",
+        "Exhaustive only within the stated class-count bound and Media-form catalogue; order judged only for mutually consistent declarations.",
+        "DESIGN.md §2 C16",
+    ),
     "C17": (
         "exploration",
         "reference predicate over real temp directory trees: find() and list() of the real finder compared with the statement's allow/forbid rule and with each other; traversal probes",
